@@ -43,12 +43,13 @@ def accepted_modes(ctx, oc: Class):
                 neg = False
                 if isinstance(t, ast.UnaryOp) and isinstance(t.op, ast.Not):
                     t, neg = t.operand, True
-                if isinstance(t, ast.Compare) and len(t.ops) == 1 and unparse(t.left) == "mode_weight" \
-                        and isinstance(t.comparators[0], (ast.List, ast.Tuple, ast.Set)):
+                from ..astutil import literal_seq
+                lit = literal_seq(init, t.comparators[0]) if isinstance(t, ast.Compare) and len(t.ops) == 1 else None
+                if isinstance(t, ast.Compare) and len(t.ops) == 1 and unparse(t.left) == "mode_weight" and lit is not None:
                     isin = isinstance(t.ops[0], ast.In)
                     if (neg and isin) or (not neg and isinstance(t.ops[0], ast.NotIn)):
                         if any(isinstance(x, ast.Raise) for x in n.body):
-                            return [const(x) for x in t.comparators[0].elts], init
+                            return [const(x) for x in lit.elts], init
     return None, None
 
 
